@@ -340,7 +340,9 @@ func optionalPointerFields(c *cx, id string, in func(f *eng.Fn) bool) int {
 // the contract bookmarks.(*Iter).Next relies on for pubsub.(*Iter).Item.
 func nilReaderSinks(c *cx, id string) {
 	var mayNil func(f *eng.Fn, e ast.Expr, pt eng.Point, depth int) string
-	retNil := func(callee *eng.Fn, k, depth int) string {
+	var retNil func(callee *eng.Fn, k, depth int) string
+	var calleeOf func(f *eng.Fn, call *ast.CallExpr) *eng.Fn
+	retNil = func(callee *eng.Fn, k, depth int) string {
 		if callee == nil || callee.Body == nil || depth > 3 {
 			return ""
 		}
@@ -359,13 +361,22 @@ func nilReaderSinks(c *cx, id string) {
 				continue
 			}
 			rp, _ := cg.Where(rs)
+			// `return g(...)` of a function with several results: result k of g
+			if len(rs.Results) == 1 && callee.Sig().Results().Len() > 1 {
+				if tc, isCall := ast.Unparen(rs.Results[0]).(*ast.CallExpr); isCall {
+					if w := retNil(calleeOf(callee, tc), k, depth+1); w != "" {
+						return w
+					}
+					continue
+				}
+			}
 			if w := mayNil(callee, op, rp, depth+1); w != "" {
 				return callee.Short + " returns it at " + c.p.Pos(rs.Pos()) + ": " + w
 			}
 		}
 		return ""
 	}
-	calleeOf := func(f *eng.Fn, call *ast.CallExpr) *eng.Fn {
+	calleeOf = func(f *eng.Fn, call *ast.CallExpr) *eng.Fn {
 		if fo, ok := typeutil.Callee(f.Info(), call).(*types.Func); ok {
 			return c.p.FnOf(fo.Origin())
 		}
@@ -444,6 +455,54 @@ func nilReaderSinks(c *cx, id string) {
 		}
 	}
 	c.r.Floor(id, "token readers handed to NewTokenDecoder/Copy", n, 20)
+	// the same for method calls on an interface value that is a result of a
+	// library function with several results (resp, payload, err := Execute()):
+	// a callee that starts to return (resp, nil, nil) for some reply makes the
+	// unchanged caller's payload.Close() a nil dereference
+	nm := 0
+	for _, f := range c.allFns() {
+		if f.Body == nil {
+			continue
+		}
+		g := f.Graph()
+		for _, call := range f.AllCalls() {
+			sel, ok := ast.Unparen(call.Fun).(*ast.SelectorExpr)
+			if !ok {
+				continue
+			}
+			idn, ok := ast.Unparen(sel.X).(*ast.Ident)
+			if !ok {
+				continue
+			}
+			v, _ := f.Info().Uses[idn].(*types.Var)
+			if v == nil || !eng.IsLocal(v) {
+				continue
+			}
+			if _, isIface := v.Type().Underlying().(*types.Interface); !isIface {
+				continue
+			}
+			pt, okp := g.Where(call)
+			if !okp {
+				continue
+			}
+			ds := g.ReachingDefs(v, pt)
+			fromLib := false
+			for _, d := range ds {
+				if d.Kind == eng.DefTuple && d.RHS != nil {
+					if dc, isCall := ast.Unparen(d.RHS).(*ast.CallExpr); isCall && calleeOf(f, dc) != nil && d.Index > 0 {
+						fromLib = true
+					}
+				}
+			}
+			if !fromLib {
+				continue
+			}
+			nm++
+			why := mayNil(f, idn, pt, 0)
+			c.r.Check(id, f, "method "+sel.Sel.Name+" called on result "+v.Name()+" of a library function", "E-nil: an interface-typed result of a library function is used only if no return of that function yields a definite nil for it together with a possibly nil error (or a non-nil test dominates the use)", call.Pos(), why == "", why)
+		}
+	}
+	c.r.Note("%s: %d method calls on interface results of library functions examined", id, nm)
 }
 
 // zeroValueMapStores (E-nil, maps): a store into a map-typed field of the
